@@ -118,11 +118,12 @@ type in4 struct {
 	bound  int
 	oobif  int
 	hlen   int
+	mtbad  int // with mt = -1: 0 = no option 53, 1..4 = an option 53 that is not exactly one byte
 }
 
 func (i in4) ev() Ev {
 	return Ev{"parse": i.parse, "op": i.op, "mt": i.mt, "gi": i.gi, "ci": i.ci, "bflag": i.bflag, "final": i.final, "yi": i.yi,
-		"bound": i.bound, "oobif": i.oobif, "hlen": i.hlen}
+		"bound": i.bound, "oobif": i.oobif, "hlen": i.hlen, "mtbad": i.mtbad}
 }
 
 // datagram4 builds the bytes of an abstract DHCPv4 input; everything not in `in` is random.
@@ -146,6 +147,19 @@ func datagram4(in in4, r *rand.Rand) ([]byte, net.IP) {
 	d.Options = dhcpv4.Options{}
 	if in.mt >= 0 {
 		d.Options[uint8(dhcpv4.OptionDHCPMessageType)] = []byte{byte(in.mt)}
+	} else if in.mtbad > 0 {
+		// "missing" also covers an option 53 that is not one byte long (e.g. sent twice: the
+		// codec concatenates repeated options) or empty
+		switch in.mtbad {
+		case 1:
+			d.Options[uint8(dhcpv4.OptionDHCPMessageType)] = []byte{1, 3}
+		case 2:
+			d.Options[uint8(dhcpv4.OptionDHCPMessageType)] = []byte{3, 7}
+		case 3:
+			d.Options[uint8(dhcpv4.OptionDHCPMessageType)] = []byte{1, 1, 1}
+		default:
+			d.Options[uint8(dhcpv4.OptionDHCPMessageType)] = []byte{}
+		}
 	}
 	if r.Intn(2) == 0 {
 		rai := make([]byte, 2+r.Intn(6))
@@ -207,18 +221,56 @@ func eqOpt4(a, b *dhcpv4.DHCPv4, code dhcpv4.OptionCode) bool {
 	return bytes.Equal(a.Options.Get(code), b.Options.Get(code))
 }
 
-// feed4 sends one abstract input through HandleMsg4 and records the outcome.
-func feed4(t *Trace, in in4, r *rand.Rand, evname string) {
-	b, yi := datagram4(in, r)
+// live4 is a long-lived listener whose synthetic chain follows the current abstract input, so that
+// many datagrams go through ONE listener (state a listener keeps between datagrams is exercised).
+type live4 struct {
+	l   *server.VerifListener4
+	cur in4
+	yi  net.IP
+}
+
+func newLive4(bound int) *live4 {
+	ll := &live4{}
 	ifi := net.Interface{}
-	if in.bound != 0 {
-		if x, err := net.InterfaceByIndex(in.bound); err == nil {
+	if bound != 0 {
+		if x, err := net.InterfaceByIndex(bound); err == nil {
 			ifi = *x
 		} else {
-			ifi = net.Interface{Index: in.bound, Name: "bound"}
+			ifi = net.Interface{Index: bound, Name: "bound"}
 		}
 	}
-	l := server.NewVerifListener4(chain4(in, yi), ifi)
+	hs := []handler.Handler4{
+		func(req, resp *dhcpv4.DHCPv4) (*dhcpv4.DHCPv4, bool) { return resp, false },
+		func(req, resp *dhcpv4.DHCPv4) (*dhcpv4.DHCPv4, bool) {
+			if ll.cur.yi {
+				resp.YourIPAddr = ll.yi
+			}
+			return resp, false
+		},
+		func(req, resp *dhcpv4.DHCPv4) (*dhcpv4.DHCPv4, bool) {
+			switch ll.cur.final {
+			case "nak":
+				resp.UpdateOption(dhcpv4.OptMessageType(dhcpv4.MessageTypeNak))
+			case "nil":
+				return nil, true
+			}
+			return resp, false
+		},
+	}
+	ll.l = server.NewVerifListener4(hs, ifi)
+	return ll
+}
+
+// feed4 sends one abstract input through HandleMsg4 and records the outcome.
+func feed4(t *Trace, in in4, r *rand.Rand, evname string) { feed4on(t, nil, in, r, evname) }
+
+func feed4on(t *Trace, ll *live4, in in4, r *rand.Rand, evname string) {
+	b, yi := datagram4(in, r)
+	if ll == nil {
+		ll = newLive4(in.bound)
+	}
+	ll.cur, ll.yi = in, yi
+	l := ll.l
 	var oob *ipv4.ControlMessage
 	if in.oobif != 0 {
 		oob = &ipv4.ControlMessage{IfIndex: in.oobif}
@@ -328,6 +380,20 @@ func runD4(t *Trace, seed int64, full bool, shard, shards int) {
 	}
 }
 
+// malformed message-type options (abstract mt = -1), all opcodes
+func runD4BadMT(t *Trace, seed int64) {
+	k := 0
+	for op := 0; op < 256; op++ {
+		for bad := 1; bad <= 4; bad++ {
+			for _, gi := range []string{"zero", "routable"} {
+				k++
+				r := rand.New(rand.NewSource(seed*2003 + int64(k)))
+				feed4(t, in4{parse: true, op: op, mt: -1, mtbad: bad, gi: gi, ci: "zero", final: "base", yi: true, bound: 0, oobif: 7, hlen: 6}, r, "d4")
+			}
+		}
+	}
+}
+
 func runD4Addr(t *Trace, seed int64, reps int) {
 	// (2) C15 product: addressing. Interfaces with a hardware address make the link-level path real.
 	ifs := macInterfaces()
@@ -341,6 +407,14 @@ func runD4Addr(t *Trace, seed int64, reps int) {
 		capt.l2real = true
 	}
 	t.Emit(Ev{"ev": "note", "what": "l2_frame_checked", "value": capt.l2real, "ifA": ifA, "ifB": ifB})
+	ifC := ifB
+	if len(ifs) >= 3 {
+		ifC = ifs[2].Index
+	} else if !capt.l2real {
+		ifC = 9
+	}
+	// long-lived listeners: one bound to ifA, one unbound; requests arrive on changing interfaces
+	lives := map[int]*live4{ifA: newLive4(ifA), 0: newLive4(0)}
 	classes := []string{"zero", "routable", "linklocal", "bcast"}
 	k := 0
 	for rep := 0; rep < reps; rep++ {
@@ -353,10 +427,10 @@ func runD4Addr(t *Trace, seed int64, reps int) {
 								continue
 							}
 							for _, yi := range []bool{true, false} {
-								for _, bo := range [][2]int{{ifA, 0}, {ifA, ifB}, {0, ifB}} {
+								for _, bo := range [][2]int{{ifA, 0}, {ifA, ifB}, {0, ifB}, {0, ifC}} {
 									k++
 									r := rand.New(rand.NewSource(seed*7919 + int64(k)))
-									feed4(t, in4{parse: true, op: 1, mt: mt, gi: gi, ci: ci, bflag: bflag, final: final, yi: yi, bound: bo[0], oobif: bo[1], hlen: 6}, r, "d4")
+									feed4on(t, lives[bo[0]], in4{parse: true, op: 1, mt: mt, gi: gi, ci: ci, bflag: bflag, final: final, yi: yi, bound: bo[0], oobif: bo[1], hlen: 6}, r, "d4")
 								}
 							}
 						}
@@ -444,18 +518,42 @@ func datagram6(in in6, r *rand.Rand) ([]byte, []layer6) {
 	return b, ls
 }
 
+type live6 struct {
+	l   *server.VerifListener6
+	cur in6
+}
+
+func newLive6(bound int) *live6 {
+	ll := &live6{}
+	ifi := net.Interface{}
+	if bound != 0 {
+		ifi = net.Interface{Index: bound, Name: "bound"}
+	}
+	hs := []handler.Handler6{
+		func(req, resp dhcpv6.DHCPv6) (dhcpv6.DHCPv6, bool) { return resp, false },
+		func(req, resp dhcpv6.DHCPv6) (dhcpv6.DHCPv6, bool) {
+			if ll.cur.final == "nil" {
+				return nil, true
+			}
+			return resp, false
+		},
+	}
+	ll.l = server.NewVerifListener6(hs, ifi)
+	return ll
+}
+
+var lives6 = map[int]*live6{}
+
 func feed6(t *Trace, in in6, r *rand.Rand) {
 	b, reqLayers := datagram6(in, r)
-	ifi := net.Interface{}
-	if in.bound != 0 {
-		ifi = net.Interface{Index: in.bound, Name: "bound"}
+	// one long-lived listener per binding: datagrams from the same sources arrive on changing interfaces
+	ll := lives6[in.bound]
+	if ll == nil {
+		ll = newLive6(in.bound)
+		lives6[in.bound] = ll
 	}
-	var hs []handler.Handler6
-	hs = append(hs, func(req, resp dhcpv6.DHCPv6) (dhcpv6.DHCPv6, bool) { return resp, false })
-	if in.final == "nil" {
-		hs = append(hs, func(req, resp dhcpv6.DHCPv6) (dhcpv6.DHCPv6, bool) { return nil, true })
-	}
-	l := server.NewVerifListener6(hs, ifi)
+	ll.cur = in
+	l := ll.l
 	var oob *ipv6.ControlMessage
 	if in.oobif != 0 {
 		oob = &ipv6.ControlMessage{IfIndex: in.oobif}
@@ -464,7 +562,7 @@ func feed6(t *Trace, in in6, r *rand.Rand) {
 	}
 	peer := &net.UDPAddr{IP: net.ParseIP(fmt.Sprintf("2001:db8:aa::%x", 1+r.Intn(0xfff))), Port: 546 + r.Intn(2)*1000}
 	if in.src == "linklocal" {
-		peer.IP = net.ParseIP(fmt.Sprintf("fe80::%x", 1+r.Intn(0xfff)))
+		peer.IP = net.ParseIP(fmt.Sprintf("fe80::%x", 1+r.Intn(3)))
 	}
 	capt.reset()
 	var pan interface{}
@@ -547,7 +645,7 @@ func runD6(t *Trace, seed int64, full bool, shard, shards int) {
 						for _, rapid := range []bool{false, true} {
 							for _, src := range []string{"global", "linklocal"} {
 								for _, final := range []string{"resp", "nil"} {
-									for _, bo := range [][2]int{{5, 0}, {5, 7}, {0, 7}} {
+									for _, bo := range [][2]int{{5, 0}, {5, 7}, {0, 7}, {0, 8}} {
 										if !full {
 											// quick tier: thin out the corners that cannot reply anyway
 											interesting := itype <= 14
@@ -965,6 +1063,9 @@ func runDispatch(args []string) error {
 	switch *mode {
 	case "d4":
 		runD4(t, *seed, *full, *shard, *shards)
+		if *shard == 0 {
+			runD4BadMT(t, *seed)
+		}
 	case "d4addr":
 		runD4Addr(t, *seed, *reps)
 	case "d6":
